@@ -1183,7 +1183,7 @@ class Translator:
     def is_ctrl(self, e):
         if e[0] in ("cast", "paren") and self.is_ctrl(e[1]):
             return True
-        if e[0] == "mcall" and e[2] in ("extend", "extend_from_slice", "push"):
+        if e[0] == "mcall" and e[2] in ("extend", "extend_from_slice", "push", "for_each"):
             return True
         return e[0] in ("if", "match", "loop", "while", "for", "block", "return", "break", "continue", "assign") or \
             (e[0] == "macro") or \
@@ -1262,6 +1262,12 @@ class Translator:
             w = "16" if e[1][1][1] == "write_u16" else "32"
             pv, tv, _ = self.expr(e[2][1], env, cx, "u" + w)
             return wrap(pi + pv, "(writeAt %s %s (put%s %s) >>= fun %s =>\n%s)" % (tgt.lean, ti, w, tv, tgt.lean, k(env, "()")))
+        if kind == "mcall" and e[2] == "for_each" and e[1][0] == "mcall" and e[1][2] == "iter" and not e[1][3] \
+                and len(e[3]) == 1 and e[3][0][0] == "closure" and len(e[3][0][1]) == 1 and e[3][0][1][0][0] == "pid":
+            # `x.iter().for_each(|&c| body)`  is  `for &c in x { body; }`
+            cl = e[3][0]
+            body = cl[2] if cl[2][0] == "block" else ("block", [("expr", cl[2], True)], None)
+            return self.for_(("for", cl[1][0], e[1][1], body), env, cx, k)
         if kind == "try" and e[1][0] == "mcall" and e[1][2] == "try_for_each" and len(e[1][3]) == 1 \
                 and e[1][3][0][0] == "closure":
             # `(a..b).try_for_each(|_| f)?`  is  `for _ in a..b { f?; }`
